@@ -3,7 +3,7 @@
 Exit 0 iff every test in stable_pass passed."""
 import json, re, subprocess, sys, os
 env = dict(os.environ, CARGO_NET_OFFLINE='true', NO_COLOR='1', CARGO_TERM_COLOR='never')
-p = subprocess.run('cargo nextest run --workspace --no-fail-fast --offline --test-threads 8', shell=True, cwd='/repo',
+p = subprocess.run('cargo nextest run --workspace --no-fail-fast --offline --test-threads 8', shell=True, cwd=os.environ.get('VF_REPO', '/repo'),
                    stdout=subprocess.PIPE, stderr=subprocess.STDOUT, text=True, env=env)
 passed, failed = set(), set()
 for line in p.stdout.splitlines():
